@@ -19,6 +19,23 @@ class Unfoldable(Exception):
     pass
 
 
+class AbsentAttribute(Unfoldable):
+    """Reading an attribute that the probe object (RecordVal) does not have: the program would raise AttributeError."""
+
+
+class RecordVal:
+    """A probe object for specialisation: named fields with concrete values; a field that is not listed does not exist
+    (`getattr(o, name, default)` gives the default, `o.name` is an AttributeError).  `isa` lists the class names the object
+    is an instance of."""
+
+    def __init__(self, fields, isa=()):
+        self.fields = dict(fields)
+        self.isa = tuple(isa)
+
+    def __repr__(self):
+        return f"<probe {'/'.join(self.isa) or 'object'} {self.fields}>"
+
+
 @dataclass(frozen=True)
 class StructVal:
     fmt: str
@@ -181,6 +198,10 @@ class Folder:
             return ("val", obj.size)
         if kind == "val" and isinstance(obj, (StructVal, PackerVal)) and expr.attr == "format":
             return ("val", obj.fmt)
+        if kind == "val" and isinstance(obj, RecordVal):
+            if expr.attr in obj.fields:
+                return ("val", obj.fields[expr.attr])
+            raise AbsentAttribute(f"probe object has no attribute {expr.attr}")
         raise Unfoldable("attribute of value")
 
     def _instance_assigned(self, cls: Cls):
@@ -366,10 +387,27 @@ class Folder:
             return {"list": list, "tuple": tuple, "set": frozenset, "frozenset": frozenset}[fn.id](v)
         if isinstance(fn, ast.Name) and fn.id == "len" and len(expr.args) == 1:
             return len(self.fold(expr.args[0], scope))
+        if isinstance(fn, ast.Name) and fn.id in ("getattr", "hasattr") and len(expr.args) in (2, 3) and not expr.keywords:
+            v = self.fold(expr.args[0], scope)
+            if isinstance(v, RecordVal):
+                nm = self.fold(expr.args[1], scope)
+                if fn.id == "hasattr":
+                    return nm in v.fields
+                if nm in v.fields:
+                    return v.fields[nm]
+                if len(expr.args) == 3:
+                    return self.fold(expr.args[2], scope)
+                raise AbsentAttribute(f"probe object has no attribute {nm}")
+            raise Unfoldable(f"{fn.id} of a value that is not a probe object")
         if isinstance(fn, ast.Name) and fn.id == "isinstance" and len(expr.args) == 2 and not expr.keywords:
             # isinstance(<folded value>, <built-in type or tuple of them>)
             v = self.fold(expr.args[0], scope)
             tt = expr.args[1].elts if isinstance(expr.args[1], ast.Tuple) else [expr.args[1]]
+            if isinstance(v, RecordVal):
+                names = [dotted(t) for t in tt]
+                if any(n is None for n in names):
+                    raise Unfoldable("isinstance with an unnamed type")
+                return any(n.split(".")[-1] in v.isa for n in names)
             types = []
             for t in tt:
                 if isinstance(t, ast.Name) and t.id in ("int", "float", "str", "bytes", "bool", "bytearray", "list", "tuple", "dict") and not (scope.env is not None and t.id in scope.env) and t.id not in scope.mod.consts and t.id not in scope.mod.classes:
